@@ -390,6 +390,14 @@ template <class E, class W, int N> struct inst
         BF assigned(BF::null());
         assigned = c;
         expect(copy, s, "construct", "copy construction");
+        {
+          // the remaining public entry points: a copy through the storage array keeps the set
+          BF const from_array(c.array());
+          BF via_accessor(BF::null());
+          via_accessor.array() = c.array();
+          expect(from_array, s, "construct", "object(other.array())");
+          expect(via_accessor, s, "construct", "x.array() = other.array()");
+        }
         expect(assigned, s, "construct", "copy assignment");
       }
       {
@@ -471,8 +479,172 @@ template <class E, class W, int N> struct inst
     }
   }
 
-  // a[e] = a[e2]: like every reference-to-bool proxy (std::bitset, std::vector<bool>) and like the
-  // documented picture "treat it like a std::map<Enum,bool>", this must copy the membership
+  // ---------------------------------------------------------------- proxy assignment in every value category
+  // Model for all of them: destination bit := source bit (read before the assignment); nothing else
+  // changes in either bitfield; the returned reference refers to the destination.  The picture is the
+  // documented one ("treat it like a std::map<Enum,bool>") and that of every reference-to-bool proxy
+  // (std::bitset::reference, std::vector<bool>::reference).
+  static constexpr int n_modes = 15;
+  static char const *mode_name(int m)
+  {
+    static char const *const names[n_modes] = {
+        "temp_source",          // a[e] = b[f]                         operator=(proxy &&)
+        "named_source",         // reference s = b[f]; a[e] = s        operator=(proxy const &)
+        "named_const_source",   // reference const s(b[f]); a[e] = s   operator=(proxy const &)
+        "moved_source",         // reference s = b[f]; a[e] = std::move(s)
+        "named_dest_named_source", // reference d = a[e], s = b[f]; d = s
+        "named_dest_temp_source",  // reference d = a[e]; d = b[f]
+        "named_dest_moved_source", // reference d = a[e], s = b[f]; d = std::move(s)
+        "const_temp_source",    // a[e] = cb[f]                        through bool
+        "const_named_source",   // const_reference s = cb[f]; a[e] = s through bool
+        "bool_from_get",        // a[e] = b.get(f)
+        "bool_from_cast",       // a[e] = static_cast<bool>(b[f])
+        "copied_proxy_source",  // reference s = b[f]; reference s2(s); a[e] = s2
+        "move_constructed_proxy_source", // reference s = b[f]; reference s2(std::move(s)); a[e] = s2
+        "set_from_proxy",       // a.set(e, b[f])
+        "swap_via_bool"};       // bool t = a[e]; a[e] = b[f]; b[f] = t  (only this mode changes b)
+    return names[m];
+  }
+  // performs the assignment; returns false when the returned reference / its value is wrong.
+  // a and b may be the same object.
+  static bool assign_mode(int m, BF &a, BF &b, int e, int f, bool bit)
+  {
+    using ref = typename BF::reference;
+    using cref = typename BF::const_reference;
+    BF const &cb = b;
+    E const ee = en(e), ff = en(f);
+    switch (m)
+    {
+    case 0:
+      return static_cast<bool>(a[ee] = b[ff]) == bit;
+    case 1:
+    {
+      ref s = b[ff];
+      return static_cast<bool>(a[ee] = s) == bit;
+    }
+    case 2:
+    {
+      ref const s(b[ff]);
+      return static_cast<bool>(a[ee] = s) == bit;
+    }
+    case 3:
+    {
+      ref s = b[ff];
+      return static_cast<bool>(a[ee] = std::move(s)) == bit;
+    }
+    case 4:
+    {
+      ref d = a[ee];
+      ref s = b[ff];
+      ref &r = (d = s);
+      return &r == &d && static_cast<bool>(d) == bit;
+    }
+    case 5:
+    {
+      ref d = a[ee];
+      ref &r = (d = b[ff]);
+      return &r == &d && static_cast<bool>(d) == bit;
+    }
+    case 6:
+    {
+      ref d = a[ee];
+      ref s = b[ff];
+      ref &r = (d = std::move(s));
+      return &r == &d && static_cast<bool>(d) == bit;
+    }
+    case 7:
+      return static_cast<bool>(a[ee] = cb[ff]) == bit;
+    case 8:
+    {
+      cref s = cb[ff];
+      cref const s2(s);
+      return static_cast<bool>(a[ee] = s) == bit && static_cast<bool>(s2) == static_cast<bool>(s);
+    }
+    case 9:
+      return static_cast<bool>(a[ee] = b.get(ff)) == bit;
+    case 10:
+      return static_cast<bool>(a[ee] = static_cast<bool>(b[ff])) == bit;
+    case 11:
+    {
+      ref s = b[ff];
+      ref s2(s);
+      return static_cast<bool>(a[ee] = s2) == bit && static_cast<bool>(s) == static_cast<bool>(s2);
+    }
+    case 12:
+    {
+      ref s = b[ff];
+      ref s2(std::move(s));
+      return static_cast<bool>(a[ee] = s2) == bit;
+    }
+    case 13:
+      a.set(ee, b[ff]);
+      return a.get(ee) == bit;
+    default:
+    {
+      bool const t = a[ee];
+      a[ee] = b[ff];
+      b[ff] = t;
+      return true;
+    }
+    }
+  }
+  static void verify_assign(int m, char const *which, BF const &real, rset const &want, std::string const &what)
+  {
+    rset const got = members(real);
+    if (got != want)
+      vrt::fail(std::string("proxy_assign:") + mode_name(m) + ":" + which,
+                vrt::fmt("%s [%s]: %s is %s, expected %s", what.c_str(), mode_name(m), which, show(got).c_str(), show(want).c_str()));
+    else
+      expect(real, want, "proxy_assign", what + " [" + mode_name(m) + "] " + which);
+  }
+  // enumerators used where not all are: both sides of every 8/16/32-bit word boundary, first, last, middle
+  static std::vector<int> positions()
+  {
+    std::set<int> p;
+    if (N <= 9)
+      for (int i = 0; i < N; ++i)
+        p.insert(i);
+    else
+      for (int i : {0, 1, 7, 8, 15, 16, 31, 32, 63, N / 2, N - 1})
+        if (i < N)
+          p.insert(i);
+    return std::vector<int>(p.begin(), p.end());
+  }
+  static bool is_position(int i)
+  {
+    for (int p : positions())
+      if (p == i)
+        return true;
+    return false;
+  }
+  // all subsets for N <= 3; otherwise empty, full, even, odd and (rich) singletons / co-singletons at positions()
+  static std::vector<u64> small_family(bool rich)
+  {
+    std::set<u64> r;
+    u64 const full = N == 64 ? ~u64(0) : (u64(1) << N) - 1;
+    if (N <= 3)
+    {
+      for (u64 m = 0; m <= full; ++m)
+        r.insert(m);
+      return std::vector<u64>(r.begin(), r.end());
+    }
+    u64 even = 0;
+    for (int i = 0; i < N; i += 2)
+      even |= u64(1) << i;
+    r.insert(0);
+    r.insert(full);
+    r.insert(even);
+    r.insert(full & ~even);
+    if (rich)
+      for (int i : positions())
+      {
+        r.insert(u64(1) << i);
+        r.insert(full & ~(u64(1) << i));
+      }
+    return std::vector<u64>(r.begin(), r.end());
+  }
+
+  // one bitfield: x[e] = x[e2] in every value category, plus self assignment through named proxies
   static void proxy_copy_all(std::vector<u64> const &d)
   {
     static std::string const name = "proxy_copy" + tag;
@@ -481,6 +653,7 @@ template <class E, class W, int N> struct inst
       if (vrt::out_of_time())
         return;
       rset const s = to_set(A, N);
+      BF const x0 = canon(s);
       for (int e = 0; e < N; ++e)
         for (int e2 = 0; e2 < N; ++e2)
         {
@@ -489,7 +662,8 @@ template <class E, class W, int N> struct inst
           if (!vrt::begin(name.c_str(), A, e, e2))
             continue;
           bool const src = s.count(e2) != 0;
-          vrt::describe(name + "(x=" + show(s) + "; x[" + std::to_string(e) + "] = x[" + std::to_string(e2) + "])");
+          std::string const what = "x=" + show(s) + "; x[" + std::to_string(e) + "] = x[" + std::to_string(e2) + "]";
+          vrt::describe(name + "(" + what + ")");
           vrt::nontrivial((s.count(e) != 0) != src);
           vrt::maybe_sample();
           rset want = s;
@@ -497,25 +671,214 @@ template <class E, class W, int N> struct inst
             want.insert(e);
           else
             want.erase(e);
+          bool const all_modes = N <= 17 || (is_position(e) && is_position(e2));
+          for (int m = 0; m < n_modes; ++m)
           {
-            BF y = canon(s);
-            BF const &cy = y;
-            y[en(e)] = cy[en(e2)]; // const source: converts through bool
-            expect(y, want, "proxy=const_proxy", "x[e] = cx[e2]");
+            if (!all_modes && m != 0 && m != 1 && m != 7)
+              continue;
+            BF x = x0;
+            bool const ret = assign_mode(m, x, x, e, e2, src);
+            if (m == n_modes - 1)
+            {
+              // swap of two bits of the same set
+              rset sw = s;
+              sw.erase(e);
+              sw.erase(e2);
+              if (s.count(e2) != 0)
+                sw.insert(e);
+              if (s.count(e) != 0)
+                sw.insert(e2);
+              verify_assign(m, "destination", x, sw, what);
+              continue;
+            }
+            VRT_CHECK(ret, std::string("proxy_assign:") + mode_name(m) + ":return", "%s [%s]: returned reference does not refer to the destination bit",
+                      what.c_str(), mode_name(m));
+            verify_assign(m, "destination", x, want, what);
           }
+          if (e == e2)
           {
-            BF x = canon(s);
-            x[en(e)] = x[en(e2)]; // both are bitfield::reference
-            rset const got = members(x);
-            if (got != want)
-              vrt::fail("proxy=proxy:not_assigned",
-                        vrt::fmt("x = %s; x[%d] = x[%d]; gives %s, expected %s (membership of %d copied)", show(s).c_str(), e, e2,
-                                 show(got).c_str(), show(want).c_str(), e2));
-            else
-              expect(x, want, "proxy=proxy", "x[e] = x[e2]");
+            using ref = typename BF::reference;
+            {
+              BF x = x0;
+              ref p = x[en(e)];
+              ref &r = (p = p); // self assignment of a named proxy
+              VRT_CHECK(&r == &p && static_cast<bool>(p) == src, "proxy_assign:self_named:return", "%s: p = p", what.c_str());
+              verify_assign(1, "self_named", x, s, what);
+            }
+            {
+              BF x = x0;
+              ref p = x[en(e)];
+              ref q = x[en(e)]; // two proxies for the same bit
+              p = q;
+              q = std::move(p);
+              VRT_CHECK(static_cast<bool>(p) == src && static_cast<bool>(q) == src, "proxy_assign:same_bit_two_proxies:return", "%s: p = q", what.c_str());
+              verify_assign(1, "same_bit_two_proxies", x, s, what);
+            }
           }
         }
     }
+  }
+
+  // two different bitfields: a[e] = b[f] in every value category (same and different enumerator,
+  // equal and different contents); b must stay as it is
+  static void proxy_xfer_all()
+  {
+    static std::string const name = "proxy_xfer" + tag;
+    std::vector<u64> const da = (N <= 9 && vrt::thorough()) ? domain(N, false) : small_family(true);
+    std::vector<u64> const db = small_family(N <= 17 || vrt::thorough());
+    std::vector<int> const pos = positions();
+    for (u64 A : da)
+    {
+      if (vrt::out_of_time())
+        return;
+      rset const sa = to_set(A, N);
+      BF const a0 = canon(sa);
+      for (u64 B : db)
+      {
+        rset const sb = to_set(B, N);
+        BF const b0 = canon(sb);
+        for (int e : pos)
+          for (int f : pos)
+          {
+            if (!vrt::begin(name.c_str(), A, B, e, f))
+              continue;
+            bool const bit = sb.count(f) != 0;
+            std::string const what = "a=" + show(sa) + ", b=" + show(sb) + "; a[" + std::to_string(e) + "] = b[" + std::to_string(f) + "]";
+            vrt::describe(name + "(" + what + ")");
+            vrt::nontrivial((sa.count(e) != 0) != bit);
+            vrt::maybe_sample();
+            rset want = sa;
+            if (bit)
+              want.insert(e);
+            else
+              want.erase(e);
+            {
+              // conversions of const / non-const proxies
+              BF b = b0;
+              BF const &cb = b;
+              typename BF::value_type const v1 = b[en(f)];
+              typename BF::value_type const v2 = cb[en(f)];
+              VRT_CHECK(v1 == bit && v2 == bit && static_cast<bool>(b[en(f)]) == bit && static_cast<bool>(cb[en(f)]) == bit,
+                        "proxy_assign:conversion", "%s: conversion of b[%d] to value_type", what.c_str(), f);
+            }
+            for (int m = 0; m < n_modes; ++m)
+            {
+              BF a = a0;
+              BF b = b0;
+              bool const ret = assign_mode(m, a, b, e, f, bit);
+              VRT_CHECK(ret, std::string("proxy_assign:") + mode_name(m) + ":return", "%s [%s]: returned reference does not refer to the destination bit",
+                        what.c_str(), mode_name(m));
+              verify_assign(m, "destination", a, want, what);
+              if (m == n_modes - 1)
+              {
+                rset wb = sb;
+                if (sa.count(e) != 0)
+                  wb.insert(f);
+                else
+                  wb.erase(f);
+                verify_assign(m, "swapped_source", b, wb, what);
+              }
+              else
+                verify_assign(m, "source_modified", b, sb, what);
+            }
+          }
+      }
+    }
+  }
+
+  // chained assignment x[e] = y[f] = z[g] over three bitfields, with every aliasing pattern of the objects
+  static void proxy_chain_all()
+  {
+    static std::string const name = "proxy_chain" + tag;
+    static int const patterns[5][3] = {{0, 1, 2}, {0, 0, 0}, {0, 1, 0}, {0, 0, 1}, {0, 1, 1}};
+    static char const *const pattern_name[5] = {"a,b,c", "a,a,a", "a,b,a", "a,a,b", "a,b,b"};
+    static char const *const chain_name[4] = {"temporaries", "named", "bool_tail", "const_tail"};
+    std::vector<u64> const ds = small_family(false);
+    std::vector<int> const pos = positions();
+    using ref = typename BF::reference;
+    for (std::size_t i0 = 0; i0 < ds.size(); ++i0)
+      for (std::size_t i1 = 0; i1 < ds.size(); ++i1)
+        for (std::size_t i2 = 0; i2 < ds.size(); ++i2)
+        {
+          if (vrt::out_of_time())
+            return;
+          u64 const M[3] = {ds[i0], ds[i1], ds[i2]};
+          for (int p = 0; p < 5; ++p)
+          {
+            int const *pt = patterns[p];
+            // skip repetitions: objects that the pattern does not use stay at the first set
+            bool const uses1 = pt[0] == 1 || pt[1] == 1 || pt[2] == 1, uses2 = pt[0] == 2 || pt[1] == 2 || pt[2] == 2;
+            if ((!uses1 && i1 != 0) || (!uses2 && i2 != 0))
+              continue;
+            for (int e : pos)
+              for (int f : pos)
+                for (int g : pos)
+                {
+                  if (!vrt::begin(name.c_str(), M[0], M[1], M[2], p, e, f, g))
+                    continue;
+                  rset const s0[3] = {to_set(M[0], N), to_set(M[1], N), to_set(M[2], N)};
+                  std::string what = "objects a=" + show(s0[0]);
+                  if (uses1)
+                    what += ", b=" + show(s0[1]);
+                  if (uses2)
+                    what += ", c=" + show(s0[2]);
+                  what += std::string("; x[") + std::to_string(e) + "] = y[" + std::to_string(f) + "] = z[" + std::to_string(g) +
+                          "] with (x,y,z)=(" + pattern_name[p] + ")";
+                  vrt::describe(name + "(" + what + ")");
+                  bool const v = s0[pt[2]].count(g) != 0;
+                  vrt::nontrivial((s0[pt[1]].count(f) != 0) != v || (s0[pt[0]].count(e) != 0) != v);
+                  vrt::maybe_sample();
+                  rset want[3] = {s0[0], s0[1], s0[2]};
+                  for (int k : {1, 0}) // y[f] := v, then x[e] := v
+                  {
+                    int const pe = k == 1 ? f : e;
+                    if (v)
+                      want[pt[k]].insert(pe);
+                    else
+                      want[pt[k]].erase(pe);
+                  }
+                  for (int c = 0; c < 4; ++c)
+                  {
+                    BF obj[3] = {canon(s0[0]), canon(s0[1]), canon(s0[2])};
+                    BF &x = obj[pt[0]], &y = obj[pt[1]], &z = obj[pt[2]];
+                    BF const &cz = z;
+                    bool ret = true;
+                    switch (c)
+                    {
+                    case 0:
+                      ret = static_cast<bool>(x[en(e)] = y[en(f)] = z[en(g)]) == v;
+                      break;
+                    case 1:
+                    {
+                      ref px = x[en(e)], py = y[en(f)], pz = z[en(g)];
+                      ref &r = (px = py = pz);
+                      ret = &r == &px && static_cast<bool>(px) == v && static_cast<bool>(py) == v;
+                      break;
+                    }
+                    case 2:
+                      ret = static_cast<bool>(x[en(e)] = y[en(f)] = z.get(en(g))) == v;
+                      break;
+                    default:
+                      ret = static_cast<bool>(x[en(e)] = y[en(f)] = cz[en(g)]) == v;
+                    }
+                    std::string const sigbase = std::string("proxy_assign:chain_") + chain_name[c];
+                    VRT_CHECK(ret, sigbase + ":return", "%s [%s]: value of the chained assignment", what.c_str(), chain_name[c]);
+                    for (int k = 0; k < 3; ++k)
+                    {
+                      if ((k == 1 && !uses1) || (k == 2 && !uses2))
+                        continue;
+                      rset const got = members(obj[k]);
+                      if (got != want[k])
+                        vrt::fail(sigbase + ":members",
+                                  vrt::fmt("%s [%s]: object %c is %s, expected %s", what.c_str(), chain_name[c], "abc"[k], show(got).c_str(),
+                                           show(want[k]).c_str()));
+                      else
+                        expect(obj[k], want[k], "proxy_assign", what + " [chain " + chain_name[c] + "]");
+                    }
+                  }
+                }
+          }
+        }
   }
 
   // ---------------------------------------------------------------- complement and self operations
@@ -966,6 +1329,8 @@ void register_inst(std::string const &ename, std::string const &wname, unsigned 
     I::element_all(d);
   });
   vrt::shard("proxy_copy/" + base, [] { I::proxy_copy_all(I::dom()); });
+  vrt::shard("proxy_xfer/" + base, [] { I::proxy_xfer_all(); });
+  vrt::shard("proxy_chain/" + base, [] { I::proxy_chain_all(); });
   for (unsigned p = 0; p < pair_parts; ++p)
     vrt::shard("pair/" + base + "/" + std::to_string(p), [p, pair_parts] { I::pairs(p, pair_parts); });
   vrt::shard("expr/" + base, [] { I::expr(true, 0, 1); });
